@@ -16,15 +16,31 @@ ASSUMPTIONS = [
     'model of msgs/message.py + utils.ByteBuffer tied by this correspondence run; layouts regenerated from the live registry',
     '"never hangs": the model is a total structurally recursive function over the same loops; the real decoder is '
     'observed to return on every generated input (no timeout machinery is used)',
+    'when the translator fails closed (a field class overrides encode/decode/create or leaves the vocabulary) the '
+    'layouts are read structurally (base class + declared length, codec_common.structural_snapshot) and the real '
+    'decoder is still judged against the property on all generated inputs; only the model comparison is dropped',
 ]
 TRUSTED = ['harness/translate/registry.py', 'harness/codec_common.py']
 
 _snap = None
+_structural = False     # the translator failed closed: layouts read structurally, real code judged without the model
+
+
+def _structural_snapshot(ctx):
+    global _snap, _structural
+    _snap, why = cc.structural_snapshot()
+    _structural = True
+    ctx.notes.append('translator failed closed (%s): the real decoder is judged on inputs built from the declared '
+                     'layouts, without model comparison' % '; '.join(why[:3]))
 
 
 def translate(ctx):
     global _snap
-    _snap = registry.generate()
+    try:
+        _snap = registry.generate()
+    except lean.TieBroken:
+        _structural_snapshot(ctx)
+        raise
 
 
 def _inputs(fields, rng, tier, has_cc):
@@ -129,11 +145,21 @@ def _judge_reuse(ctx, cls, info, before, data):
 
 
 def run(ctx):
-    snap = _snap if _snap is not None else registry.snapshot()
-    drv = ctx.driver('drv_codec')
-    if int(drv.ask('count')) != len(snap):
-        ctx.disagree('registry-size', {}, drv.ask('count'), str(len(snap)))
-        return
+    if _snap is None:
+        try:
+            snap = registry.snapshot()
+        except lean.TieBroken as e:
+            ctx.broken.append(('translator', str(e)))
+            _structural_snapshot(ctx)
+            snap = _snap
+    else:
+        snap = _snap
+    drv = None
+    if not _structural:
+        drv = ctx.driver('drv_codec')
+        if int(drv.ask('count')) != len(snap):
+            ctx.disagree('registry-size', {}, drv.ask('count'), str(len(snap)))
+            drv = None      # the property is still judged on the real decoder below
     rng = ctx.rng('c02')
     from pyipmi.msgs.message import encode_message  # noqa
     for idx, (cls, info) in enumerate(snap):
@@ -154,6 +180,11 @@ def run(ctx):
                 inputs.append(('truncation', data[:k]))
             for ext in (1, 2, 3):
                 inputs.append(('extension', data + bytes(rng.randrange(256) for _ in range(ext))))
+        # valid encodings written from the LAYOUT (not by the library's encoder): every field at the boundary
+        # patterns of its width, every optional tail present
+        for label, _vals, data in cc.boundary_encodings(fields, ctx.rng('c02-boundary/%s' % info['name'])):
+            longest = max(longest, len(data))
+            inputs.append(('boundary', data))
         for _ in range(24 if ctx.tier == 'quick' else 400):
             n = rng.randrange(0, longest + 9)
             inputs.append(('random', bytes(rng.randrange(256) for _ in range(n))))
@@ -161,13 +192,20 @@ def run(ctx):
             for c in range(1, 256):
                 n = rng.randrange(0, longest + 4)
                 inputs.append(('nonok-cc', bytes([c]) + bytes(rng.randrange(256) for _ in range(n))))
-        models = drv.ask_many(['dec %d %s' % (idx, lean.hexs(d)) for _, d in inputs])
+        if drv is not None:
+            models = drv.ask_many(['dec %d %s' % (idx, lean.hexs(d)) for _, d in inputs])
+        else:
+            models = [None] * len(inputs)
         for (kind, data), m in zip(inputs, models):
             ctx.case((info['name'], data), nontrivial=len(data) > 0)
             ctx.count('input:' + kind)
             _judge(ctx, idx, cls, info, kind, data, m)
         # the same inputs decoded into an object that was decoded into before (longer message first)
         vs = sorted(set(d for k, d in inputs if k == 'valid'), key=lambda d: (-len(d), d))
+        bs = [d for k, d in inputs if k == 'boundary']
+        if bs:      # one all-ones and one all-zero full-length layout encoding take part in the reuse pairs
+            vs = sorted(set(vs + [max(bs, key=lambda d: (len(d), d)), max(bs, key=lambda d: (len(d), [255 - x for x in d]))]),
+                        key=lambda d: (-len(d), d))
         for i, before in enumerate(vs[:6]):
             for data in (vs[i + 1:] + vs[:i])[:8]:
                 ctx.case((info['name'], 'reuse', before, data), nontrivial=len(data) > 0)
@@ -189,7 +227,11 @@ def search(ctx):
 
 
 def replay(ctx, v):
-    snap = registry.snapshot()
+    try:
+        snap = registry.snapshot()
+    except lean.TieBroken as e:
+        print('translator fails closed on this tree (%s): layouts read structurally' % e)
+        snap, _ = cc.structural_snapshot()
     case = v['case']
     by_name = dict((info['name'], (i, cls, info)) for i, (cls, info) in enumerate(snap))
     if case.get('class') not in by_name:
